@@ -165,7 +165,22 @@ func RunC11(c *core.Ctx) {
 		if !cs.Req.ChOK {
 			chName = strings.TrimSuffix(chName, "/")
 		}
-		body, _ := json.Marshal(map[string]any{"key": pk, "channel": chName, "type": strings.Join(cs.Req.Type, ""), "ttl": ttlOf(cs.Req.TTL)})
+		fields := map[string]any{"key": pk, "channel": chName, "type": strings.Join(cs.Req.Type, ""), "ttl": ttlOf(cs.Req.TTL)}
+		if (n+c.Seed)%2 == 0 {
+			// a field left out of the JSON means its zero value (no permissions, never expires, no key): the same request,
+			// encoded differently - and answered after many complete requests of other shapes on the same broker
+			if len(cs.Req.Type) == 0 {
+				delete(fields, "type")
+			}
+			if ttlOf(cs.Req.TTL) == 0 {
+				delete(fields, "ttl")
+			}
+			if cs.Parent.Kind == "garbage" {
+				delete(fields, "key")
+			}
+			c.Add("requests_with_omitted_fields", 1)
+		}
+		body, _ := json.Marshal(fields)
 		t0 := time.Now()
 		w.cl.Send(&mqtt.Publish{Header: mqtt.Header{QOS: 1}, MessageID: uint16(n%60000 + 1), Topic: []byte("emitter/keygen/"), Payload: body})
 		pkts, err := w.cl.Barrier(8 * time.Second)
